@@ -799,3 +799,30 @@ fire("C18", "vectorised route integrates over the first grid instead of the last
      ("sub", "ngrid.py", "                integral_value += pre_weight * self.grid_list[-1].integrate(np.array(values))\n", "                integral_value += pre_weight * self.grid_list[0].integrate(np.array(values))\n"))
 silent("C18", "point-by-point route: chunk sums collected and added at the end",
        ("sub", "ngrid.py", "                integral_value += np.sum(values_array * weights_array)\n", "                integral_value = integral_value + np.dot(values_array, weights_array)\n"))
+
+# C15 zero-coefficient configurations, C16 P8 / neutral configuration, C09 even degrees
+fire("C15", "coefficient loop stops at the first identically-zero coefficient", "T1.faa-di-bruno-coefficients/ode._transform_ode_from_derivs",
+     ("sub", "ode.py", "    if total > 1:\n        coeff_b[1] += coeff_a_mtr[1] * derivs[0]\n    if total > 2:\n        coeff_b[1] += coeff_a_mtr[2] * derivs[1]\n        coeff_b[2] += coeff_a_mtr[2] * derivs[0] ** 2\n    if total > 3:\n        coeff_b[1] += coeff_a_mtr[3] * derivs[2]\n        coeff_b[2] += coeff_a_mtr[3] * 3 * derivs[0] * derivs[1]\n        coeff_b[3] += coeff_a_mtr[3] * derivs[0] ** 3\n",
+      "    polys = {1: lambda d: (d[0],), 2: lambda d: (d[1], d[0] ** 2), 3: lambda d: (d[2], 3 * d[0] * d[1], d[0] ** 3)}\n    for k in range(min(total - 1, 3), 0, -1):\n        if not np.any(coeff_a_mtr[k]):\n            break\n        for j, b_kj in enumerate(polys[k](derivs), start=1):\n            coeff_b[j] += coeff_a_mtr[k] * b_kj\n"))
+silent("C15", "coefficient loop skips identically-zero coefficients",
+       ("sub", "ode.py", "    if total > 1:\n        coeff_b[1] += coeff_a_mtr[1] * derivs[0]\n    if total > 2:\n        coeff_b[1] += coeff_a_mtr[2] * derivs[1]\n        coeff_b[2] += coeff_a_mtr[2] * derivs[0] ** 2\n    if total > 3:\n        coeff_b[1] += coeff_a_mtr[3] * derivs[2]\n        coeff_b[2] += coeff_a_mtr[3] * 3 * derivs[0] * derivs[1]\n        coeff_b[3] += coeff_a_mtr[3] * derivs[0] ** 3\n",
+        "    polys = {1: lambda d: (d[0],), 2: lambda d: (d[1], d[0] ** 2), 3: lambda d: (d[2], 3 * d[0] * d[1], d[0] ** 3)}\n    for k in range(min(total - 1, 3), 0, -1):\n        if not np.any(coeff_a_mtr[k]):\n            continue\n        for j, b_kj in enumerate(polys[k](derivs), start=1):\n            coeff_b[j] += coeff_a_mtr[k] * b_kj\n"))
+fire("C16", "bvp shortcut: zero net charge taken for zero density", "P1.radial-equation/poisson._solve_poisson_bvp_atomgrid",
+     ("sub", "poisson.py", "    # Check if the domain of transform is in [0, \\infty)\n    domain = transform.domain\n", "    if np.isclose(boundary, 0.0):\n        return lambda points: np.zeros(len(points))\n    # Check if the domain of transform is in [0, \\infty)\n    domain = transform.domain\n"))
+fire("C16", "second split fits a sorted basis but reports the caller's order", "P8.fit-consistency/robust_poisson._fit_residual_gaussians",
+     ("sub", "robust_poisson.py", "        prefactors = (alphas_basis / np.pi) ** 1.5\n        A = prefactors[None, :] * np.exp(-r_sq[:, None] * alphas_basis[None, :])\n",
+      "        sorted_basis = np.sort(alphas_basis)\n        prefactors = (sorted_basis / np.pi) ** 1.5\n        A = prefactors[None, :] * np.exp(-r_sq[:, None] * sorted_basis[None, :])\n"))
+silent("C16", "second split sorts the basis once and uses the sorted basis everywhere",
+       ("sub", "robust_poisson.py", "    residual = residual.copy()\n    all_coeffs = []\n", "    residual = residual.copy()\n    alphas_basis = np.sort(alphas_basis)\n    all_coeffs = []\n"))
+fire("C09", "truncation keeps (d + 1) // 2 degrees (wrong for shells of even degree)", "D4.radial-components/atomgrid.AtomGrid.radial_component_splines",
+     ("sub", "atomgrid.py", "                num_nonzero_sph = (self.degrees[i] // 2 + 1) ** 2\n", "                num_nonzero_sph = ((self.degrees[i] + 1) // 2) ** 2\n"))
+fire("C09", "harmonic basis shared between grids through a module cache keyed without the rotation", "D8.own-basis/atomgrid.AtomGrid.radial_component_splines",
+     ("sub", "atomgrid.py", "        if self._basis is None:\n            theta, phi = self.convert_cartesian_to_spherical().T[1:]\n",
+      "        key = (self.method, tuple(int(d) for d in self.degrees))\n        if self._basis is None and key in _SHARED_BASIS:\n            self._basis = _SHARED_BASIS[key]\n        if self._basis is None:\n            theta, phi = self.convert_cartesian_to_spherical().T[1:]\n"),
+     ("sub", "atomgrid.py", "        # Multiply spherical harmonic basis with the function values to project.\n", "        _SHARED_BASIS[key] = self._basis\n        # Multiply spherical harmonic basis with the function values to project.\n"),
+     ("sub", "atomgrid.py", "class AtomGrid(Grid):\n", "_SHARED_BASIS = {}\n\n\nclass AtomGrid(Grid):\n"))
+silent("C09", "harmonic basis shared between grids through a module cache keyed with the rotation",
+       ("sub", "atomgrid.py", "        if self._basis is None:\n            theta, phi = self.convert_cartesian_to_spherical().T[1:]\n",
+        "        key = (self.method, tuple(int(d) for d in self.degrees), self.rotate)\n        if self._basis is None and key in _SHARED_BASIS:\n            self._basis = _SHARED_BASIS[key]\n        if self._basis is None:\n            theta, phi = self.convert_cartesian_to_spherical().T[1:]\n"),
+       ("sub", "atomgrid.py", "        # Multiply spherical harmonic basis with the function values to project.\n", "        _SHARED_BASIS[key] = self._basis\n        # Multiply spherical harmonic basis with the function values to project.\n"),
+       ("sub", "atomgrid.py", "class AtomGrid(Grid):\n", "_SHARED_BASIS = {}\n\n\nclass AtomGrid(Grid):\n"))
